@@ -139,7 +139,7 @@ func (h *JsonHandler) Handle(_ context.Context, r slog.Record) error {
 }
 
 // appendJsonAttr appends the attr as object members, preceded by a comma if addSep is true.
-// It reports whether the next member needs a leading comma: an inline group without members appends nothing.
+// It reports whether the next member needs a leading comma: a group without members appends nothing.
 func appendJsonAttr(buf *[]byte, a slog.Attr, addSep bool, colorful bool) bool {
 	a.Value = a.Value.Resolve()
 	if a.Value.Kind() == slog.KindGroup {
@@ -149,15 +149,21 @@ func appendJsonAttr(buf *[]byte, a slog.Attr, addSep bool, colorful bool) bool {
 			}
 			return addSep
 		}
+		start := len(*buf)
 		if addSep {
 			*buf = append(*buf, ',')
 		}
 		*buf = append(*buf, '"')
 		appendJsonString(buf, a.Key)
 		*buf = append(*buf, '"', ':', '{')
-		addSep = false
+		hasMember := false
 		for _, aa := range a.Value.Group() {
-			addSep = appendJsonAttr(buf, aa, addSep, colorful)
+			hasMember = appendJsonAttr(buf, aa, hasMember, colorful)
+		}
+		if !hasMember {
+			// like log/slog (and like a group passed at the call site), omit a group without members
+			*buf = (*buf)[:start]
+			return addSep
 		}
 		*buf = append(*buf, '}')
 		return true
